@@ -284,6 +284,38 @@ Proof.
   split; [apply in_or_app; right; left; reflexivity | reflexivity].
 Qed.
 
+(* ---- the two reads of search_orphan_leader ------------------------------------------ *)
+Lemma verify_keeps_ext s x : memN x (s_ext s) = true -> memN x (s_ext (verify always s)) = true.
+Proof.
+  intros H. unfold verify. destruct (s_queue s) as [|b q]; [exact H|].
+  destruct (bb_ok b && negb (parent_invalid s (bb_par b))); cbn [s_ext]; [|exact H].
+  rewrite memN_cons, H. apply orb_true_r.
+Qed.
+Lemma verify_n_inv k : forall s, binv s -> binv (verify_n k s).
+Proof. induction k as [|k IH]; intros s H; cbn [verify_n]; [exact H | apply IH; apply verify_inv; exact H]. Qed.
+Lemma verify_n_keeps_ext k : forall s x, memN x (s_ext s) = true -> memN x (s_ext (verify_n k s)) = true.
+Proof. induction k as [|k IH]; intros s x H; cbn [verify_n]; [exact H | apply IH; apply verify_keeps_ext; exact H]. Qed.
+
+(* read is_pending_verify first: a leader that has been handed over or verified is seen, however many
+   blocks the verify thread completes between the two reads *)
+Theorem pending_first_sees_handled_leader : forall ops p k,
+  let s := brun always binit ops in
+  handled s p = true -> leader_there true s (verify_n k s) p = true.
+Proof.
+  intros ops p k s H. pose proof (broker_invariant ops) as I. fold s in I.
+  unfold leader_there, handled in *. apply orb_true_iff in H as [H|H]; [rewrite H; reflexivity|].
+  destruct (verify_n_inv k s I) as (Hc & _ & _). rewrite (Hc p), (verify_n_keeps_ext k s p H). apply orb_true_r.
+Qed.
+
+(* read the status first: block 1 is pending at the first read, verified (snapshot published, no longer
+   pending) at the second — seen as neither *)
+Definition ex_racing : bstate := brun always binit [BAccept (mkBB 1 0 true true true)].
+Lemma status_first_misses_leader :
+  handled ex_racing 1 = true /\ handled (verify always ex_racing) 1 = true /\
+  leader_there false ex_racing (verify always ex_racing) 1 = false /\
+  leader_there true ex_racing (verify always ex_racing) 1 = true.
+Proof. vm_compute. repeat split. Qed.
+
 (* ---- the policy that refreshes only for blocks of the tip's epoch or later ------------------------ *)
 (* main chain 1 <- 2 (block 2 starts a new epoch); then a fork 3 <- 4 from genesis whose blocks belong to
    the epoch the tip has left; 3 is verified as a side block, 4 is delivered after that *)
